@@ -199,6 +199,7 @@ func twin(p *Program) *Program {
 		flip(q.Ops[i].B)
 	}
 	q.Cfg.DeferredSort = !q.Cfg.DeferredSort
+	q.Cfg.SparseReads = q.Cfg.DeferredSort // reads sort deferred segments: read sparsely when sorting is deferred
 	q.Cfg.CachePersisted = !q.Cfg.CachePersisted
 	return q
 }
